@@ -1,24 +1,30 @@
 (* C04 property theorems only: each closed by `exact <lemma>` with Print Assumptions beneath.
    F / Ftxt: binary64 values and their decimal texts; pf = '{}'.format, rf = float(), f_of_int = float("12").
-   The one fact assumed of them is the round trip rf (pf x) = x. *)
+   The one fact assumed of them is the round trip rf (pf x) = x (tested on every run).
+   Guards that are not in the property's quantifier are visible premises (no_xyz_attrs, no_obj_attrs, off_ok, geo_ok, ...);
+   statements that cover only part of a clause carry _partial, refuted ones _refuted. *)
 From Coq Require Import ZArith Bool String.
 From Coq Require Import List.
 Import ListNotations.
 Require Import MV.C04.Gen MV.C04.Model MV.C04.Geo MV.C04.Stl MV.C04.Ref MV.C04.GeoRef MV.C04.Run MV.C04.Proofs.
 Open Scope Z_scope.
 
+(* ---- round trips parse_f (print_f m) = vocab_f m.
+   no_xyz_attrs / no_obj_attrs: the mesh carries no "normals" / "uv_coords" attribute on its vertices or face corners (the
+   exporters would write them as extra columns / vt vn lines: outside the model). *)
 Theorem C04_roundtrip_xyz : forall (F Ftxt Cx Ctxt : Type) (pf : F -> Ftxt) (rf : Ftxt -> F) (f_of_int : Z -> F),
-  (forall x, rf (pf x) = x) -> forall (m : mesh F Cx) L,
+  (forall x, rf (pf x) = x) -> forall (m : mesh F Cx) L, no_xyz_attrs m ->
   @print_xyz F Ftxt Cx Ctxt pf m = Some L -> @parse_xyz F Ftxt Cx Ctxt rf f_of_int L = Some (vocab_xyz m).
-Proof. exact xyz_roundtrip. Qed.
+Proof. exact roundtrip_xyz_stmt. Qed.
 Print Assumptions C04_roundtrip_xyz.
 
 Theorem C04_roundtrip_obj : forall (F Ftxt Cx Ctxt : Type) (pf : F -> Ftxt) (rf : Ftxt -> F) (f_of_int : Z -> F),
-  (forall x, rf (pf x) = x) -> forall sw (m : mesh F Cx) L,
+  (forall x, rf (pf x) = x) -> forall sw (m : mesh F Cx) L, no_obj_attrs m ->
   @print_obj F Ftxt Cx Ctxt pf sw m = Some L -> @parse_obj F Ftxt Cx Ctxt rf f_of_int L = vocab_obj sw m.
-Proof. exact obj_roundtrip. Qed.
+Proof. exact roundtrip_obj_stmt. Qed.
 Print Assumptions C04_roundtrip_obj.
 
+(* off_ok: faces have at least 3 vertices (a `2 a b` line is an edge for the importer, `1 a` / `0` are skipped) *)
 Theorem C04_roundtrip_off : forall (F Ftxt Cx Ctxt : Type) (pf : F -> Ftxt) (rf : Ftxt -> F) (f_of_int : Z -> F),
   (forall x, rf (pf x) = x) -> forall (m : mesh F Cx), off_ok m ->
   @parse_off F Ftxt Cx Ctxt rf f_of_int (print_off Ctxt pf m) = Some (vocab_off m).
@@ -37,23 +43,29 @@ Theorem C04_roundtrip_medit : forall (F Ftxt Cx Ctxt : Type) (pf : F -> Ftxt) (r
 Proof. exact medit_roundtrip. Qed.
 Print Assumptions C04_roundtrip_medit.
 
-(* geogram_ascii.  pc / rc: '{}'.format and complex() on complex values; f_is_zero x is x == 0.0, c_is_zero z is z == 0j.
-   geo_ok m: attribute names are free of double quotes, are not the names the format reserves and are distinct on each
-   container (nor 'corner_adjacent_facet' on face corners / 'adjacent_cell', 'opposite_cell' on cell facets, which mouette
-   uses itself); arities are >= 1; values have the attribute's type; string values are not chunk headers.  Cells
-   of any arity are covered (cell_ptr is written when some cell is not a tetrahedron; the cell adjacency is written and
-   read back for tetrahedral meshes only). *)
+(* geogram_ascii.  pc / rc: '{}'.format and complex() on complex values; f_is_zero x is x == 0.0, c_is_zero z is z == 0j;
+   enc_s / dec_s, enc_n / dec_n: urllib.parse.quote (with the alphabets of Gen.v) / unquote applied to string values and to
+   the names of user attributes.  Assumed of them (tested on every run, and evaluated on the concrete Coq version pct_encode /
+   pct_decode in ex_pct_roundtrip): unquote (quote s) = s, and a quoted text holds no double quote and no chunk keyword.
+   geo_ok m: attribute names are distinct on each container and are not names the format or mouette reserve (see
+   C04_geogram_reserved_name_refuted); arities are >= 1; values have the attribute's type.  Cells of any arity are covered
+   (cell_ptr is written when some cell is not a tetrahedron; the cell adjacency exists for tetrahedral meshes only). *)
 Theorem C04_roundtrip_geogram : forall (F Ftxt Cx Ctxt : Type) (pf : F -> Ftxt) (rf : Ftxt -> F) (f_of_int : Z -> F)
-    (pc : Cx -> Ctxt) (rc : Ctxt -> Cx) (cx_of_f : F -> Cx) (f_is_zero : F -> bool) (c_is_zero : Cx -> bool),
-  (forall x, rf (pf x) = x) -> (forall c, rc (pc c) = c) -> forall (m : mesh F Cx), @geo_ok F Ftxt Cx Ctxt m ->
-  @parse_geo F Ftxt Cx Ctxt rf f_of_int rc cx_of_f f_is_zero c_is_zero (@print_geo F Ftxt Cx Ctxt pf pc m)
+    (pc : Cx -> Ctxt) (rc : Ctxt -> Cx) (cx_of_f : F -> Cx) (f_is_zero : F -> bool) (c_is_zero : Cx -> bool)
+    (enc_s dec_s enc_n dec_n : string -> string),
+  (forall x, rf (pf x) = x) -> (forall c, rc (pc c) = c) ->
+  (forall s, dec_s (enc_s s) = s) -> (forall s, dec_n (enc_n s) = s) ->
+  (forall s, @is_chunk_header Ftxt Ctxt (TWord (enc_s s)) = false) ->
+  (forall s, clean (enc_n s) /\ @is_chunk_header Ftxt Ctxt (TWord (qs (enc_n s))) = false) ->
+  forall (m : mesh F Cx), @geo_ok F Cx enc_n m ->
+  @parse_geo F Ftxt Cx Ctxt rf f_of_int rc cx_of_f f_is_zero c_is_zero dec_s dec_n (@print_geo F Ftxt Cx Ctxt pf pc enc_s enc_n m)
   = Some (@vocab_geo F Cx f_is_zero c_is_zero m).
 Proof. exact geo_roundtrip. Qed.
 Print Assumptions C04_roundtrip_geogram.
 
-(* every attribute comes back with its name, type and arity (they are fields of sparse_of a, see vocab_geo) and, read
-   densely over the n items of its container, with its values; a scalar attribute does not distinguish a value that
-   compares equal to the type's default from the default itself (-0.0 reads back as 0.0). *)
+(* corollary used with the round trip: every attribute comes back with its name, type and arity (fields of sparse_of a, see
+   vocab_geo) and, read densely over the n items of its container, with its values; a scalar attribute does not distinguish
+   a value that compares equal to the type's default from the default itself (-0.0 reads back as 0.0). *)
 Theorem C04_attributes_geogram : forall (F Cx : Type) (f_of_int : Z -> F) (cx_of_f : F -> Cx)
     (f_is_zero : F -> bool) (c_is_zero : Cx -> bool) (a : attr F Cx) (n : nat),
   1 <= a_ar a -> length (a_vals a) = (n * Z.to_nat (a_ar a))%nat ->
@@ -61,41 +73,41 @@ Theorem C04_attributes_geogram : forall (F Cx : Type) (f_of_int : Z -> F) (cx_of
   @dense_of F Cx f_of_int cx_of_f (Z.of_nat n) (@sparse_of F Cx f_is_zero c_is_zero a) = a_vals a
   /\ s_name (@sparse_of F Cx f_is_zero c_is_zero a) = a_name a
   /\ s_ty (@sparse_of F Cx f_is_zero c_is_zero a) = a_ty a /\ s_ar (@sparse_of F Cx f_is_zero c_is_zero a) = a_ar a.
-Proof. intros. split; [now apply geo_attr_dense | repeat split]. Qed.
+Proof. exact attributes_geogram_stmt. Qed.
 Print Assumptions C04_attributes_geogram.
 
 (* ---- interoperability with the reference codecs of Ref.v (written from the format descriptions, free-form token
    stream readers for OFF / tet / Medit): what mouette writes means the same to the reference reader, and what the
    reference writer writes loads correctly. *)
 Theorem C04_interop_xyz : forall (F Ftxt Cx Ctxt : Type) (pf : F -> Ftxt) (rf : Ftxt -> F) (f_of_int : Z -> F),
-  (forall x, rf (pf x) = x) -> forall (m : mesh F Cx),
+  (forall x, rf (pf x) = x) -> forall (m : mesh F Cx), no_xyz_attrs m ->
   (forall L, @print_xyz F Ftxt Cx Ctxt pf m = Some L -> @ref_parse_xyz F Ftxt Cx Ctxt rf f_of_int L = Some (vocab_xyz m))
   /\ @parse_xyz F Ftxt Cx Ctxt rf f_of_int (@ref_print_xyz F Ftxt Cx Ctxt pf m) = Some (vocab_xyz m).
-Proof. intros. split; [intros; eapply xyz_ref_reads; eassumption | now apply xyz_loads_ref]. Qed.
+Proof. exact interop_xyz_stmt. Qed.
 Print Assumptions C04_interop_xyz.
 
 (* obj_ref_ok: vertex indices are >= 0 and faces have at least 3 vertices (what the OBJ grammar can say) *)
 Theorem C04_interop_obj : forall (F Ftxt Cx Ctxt : Type) (pf : F -> Ftxt) (rf : Ftxt -> F) (f_of_int : Z -> F),
-  (forall x, rf (pf x) = x) -> forall sw (m : mesh F Cx),
+  (forall x, rf (pf x) = x) -> forall sw (m : mesh F Cx), no_obj_attrs m ->
   (forall L el, obj_exported_edges sw m = Some el -> @obj_ref_ok F Cx el m -> @print_obj F Ftxt Cx Ctxt pf sw m = Some L ->
      @ref_parse_obj F Ftxt Cx Ctxt rf f_of_int L = Some (raw_of Cx (map (@v3 F) (mV m)) (map e2 el) (mF m) []))
   /\ @parse_obj F Ftxt Cx Ctxt rf f_of_int (@ref_print_obj F Ftxt Cx Ctxt pf m)
      = Some (raw_of Cx (map (@v3 F) (mV m)) (map (fun e => keyify2 (fst e) (snd e)) (mE m)) (mF m) []).
-Proof. intros. split; [intros; eapply obj_ref_reads; eassumption | now apply obj_loads_ref]. Qed.
+Proof. exact interop_obj_stmt. Qed.
 Print Assumptions C04_interop_obj.
 
 Theorem C04_interop_off : forall (F Ftxt Cx Ctxt : Type) (pf : F -> Ftxt) (rf : Ftxt -> F) (f_of_int : Z -> F),
   (forall x, rf (pf x) = x) -> forall (m : mesh F Cx),
   @ref_parse_off F Ftxt Cx Ctxt rf f_of_int (concat (print_off Ctxt pf m)) = Some (vocab_off m)
   /\ (off_ok m -> @parse_off F Ftxt Cx Ctxt rf f_of_int (@ref_print_off F Ftxt Cx Ctxt pf m) = Some (vocab_off m)).
-Proof. intros. split; [now apply off_ref_reads | now apply off_loads_ref]. Qed.
+Proof. exact interop_off_stmt. Qed.
 Print Assumptions C04_interop_off.
 
 Theorem C04_interop_tet : forall (F Ftxt Cx Ctxt : Type) (pf : F -> Ftxt) (rf : Ftxt -> F) (f_of_int : Z -> F),
   (forall x, rf (pf x) = x) -> forall (m : mesh F Cx),
   @ref_parse_tet F Ftxt Cx Ctxt rf f_of_int (concat (print_tet Ctxt pf m)) = Some (vocab_tet m)
   /\ @parse_tet F Ftxt Cx Ctxt rf f_of_int (@ref_print_tet F Ftxt Cx Ctxt pf m) = Some (vocab_tet m).
-Proof. intros. split; [now apply tet_ref_reads | now apply tet_loads_ref]. Qed.
+Proof. exact interop_tet_stmt. Qed.
 Print Assumptions C04_interop_tet.
 
 (* the reference writer emits every edge and the kinds Triangles, Quadrilaterals, Tetrahedra, Hexahedra in that order *)
@@ -106,23 +118,26 @@ Theorem C04_interop_medit : forall (F Ftxt Cx Ctxt : Type) (pf : F -> Ftxt) (rf 
   /\ @parse_medit F Ftxt Cx Ctxt rf f_of_int (@ref_print_medit F Ftxt Cx Ctxt pf m)
      = Some (raw_of Cx (map (@v3 F) (mV m)) (map e2 (mE m))
                (filter (len_is 3) (mF m) ++ filter (len_is 4) (mF m)) (filter (len_is 4) (mC m) ++ filter (len_is 8) (mC m))).
-Proof. intros F Ftxt Cx Ctxt pf rf f_of_int H m. split; [intros L HL; now apply (medit_ref_reads F Ftxt Cx Ctxt pf rf f_of_int H m L) | now apply medit_loads_ref]. Qed.
+Proof. exact interop_medit_stmt. Qed.
 Print Assumptions C04_interop_medit.
 
 (* ---- geogram_ascii read by an independent, count-driven reader (GeoRef.v: it reads the number of values the declared
-   sizes announce and never looks for the next chunk header, as geogram does): it finds exactly the attribute sets and
-   attributes mouette wrote, each attribute with all its values.  geo_sizes_ok: every attribute holds size * arity values.
+   sizes announce and never looks for the next chunk header, as geogram does): it cuts the file exactly into the attribute
+   sets and attributes mouette wrote, each attribute with all its values (count consistency of the file; the reader does
+   not interpret them as vertices / faces).  geo_sizes_ok: every attribute holds size * arity values.
    PARTIAL: the converse direction (files of an independent geogram writer, and a file written by geogram itself) is
    compared per run with the model's parser, not proved. *)
-Theorem C04_interop_geogram_partial : forall (F Ftxt Cx Ctxt : Type) (pf : F -> Ftxt) (pc : Cx -> Ctxt) (m : mesh F Cx),
+Theorem C04_interop_geogram_partial : forall (F Ftxt Cx Ctxt : Type) (pf : F -> Ftxt) (pc : Cx -> Ctxt)
+    (enc_s enc_n : string -> string) (m : mesh F Cx),
   @geo_sizes_ok F Cx m ->
-  @ref_read_geo Ftxt Ctxt (@print_geo F Ftxt Cx Ctxt pf pc m) = Some (@items_of Ftxt Ctxt (tl (@geo_chunks F Ftxt Cx Ctxt pf pc m))).
+  @ref_read_geo Ftxt Ctxt (@print_geo F Ftxt Cx Ctxt pf pc enc_s enc_n m)
+  = Some (@items_of Ftxt Ctxt (tl (@geo_chunks F Ftxt Cx Ctxt pf pc enc_s enc_n m))).
 Proof. exact geo_ref_reads. Qed.
 Print Assumptions C04_interop_geogram_partial.
 
 (* ---- binary STL (partial: triangle meshes; the importer is the third-party stl_reader, compared by the driver).
    to32 is struct.pack('f'): rounding to binary32.  Full statement wanted: load (save m) = soup of m for every mesh;
-   missing: a model of stl_reader, and quads (written as two triangles, not claimed). *)
+   missing: a model of stl_reader.  Quads: see C04_stl_quads_refuted. *)
 Theorem C04_roundtrip_stl_partial : forall (F Cx F32 : Type) (to32 : F -> option F32) (zero32 : F32) (m : mesh F Cx) S,
   Forall (fun f => zlen f = 3) (mF m) -> @soup32 F Cx F32 to32 m = Some S ->
   exists L, @print_stl F Cx F32 to32 zero32 m = Some L /\ @ref_parse_stl F32 L = Some S.
@@ -139,8 +154,7 @@ Theorem C04_class_implied : forall (F Cx : Type) (r : raw F Cx),
 Proof. exact class_loaded. Qed.
 Print Assumptions C04_class_implied.
 
-(* ---- element kinds a format cannot express are absent from what its files give back (never turned into something
-   else): together with the round trips above, parse_f (print_f m) has exactly these containers *)
+(* ---- corollary of the round trips: element kinds a format cannot express are absent from what its files give back *)
 Theorem C04_vocabulary : forall (F Cx : Type) (m : mesh F Cx) sw,
   (rE (vocab_xyz m) = [] /\ rF (vocab_xyz m) = [] /\ rC (vocab_xyz m) = [])
   /\ (forall r, vocab_obj sw m = Some r -> rC r = [])
@@ -151,7 +165,24 @@ Theorem C04_vocabulary : forall (F Cx : Type) (m : mesh F Cx) sw,
 Proof. exact vocabulary. Qed.
 Print Assumptions C04_vocabulary.
 
-(* ---- REFUTED for the faithful model (known findings): legal files of independent writers that the importers misread *)
+(* ---- io.py: each extension is dispatched to the import / export function the model describes (tables of Gen.v) *)
+Theorem C04_extension_dispatch : forall f, dispatch_ok f = true.
+Proof. exact dispatch_all. Qed.
+Print Assumptions C04_extension_dispatch.
+
+(* ---- save(ignore_elements=...) (table of Gen.v): the named kinds and their attributes are absent from what is written,
+   the vertices are kept, and without the switch nothing changes *)
+Theorem C04_ignore_elements : forall (F Cx : Type) (sw : switches) (m : mesh F Cx),
+  (In "edges"%string (sw_ignore sw) -> mE (apply_ignore sw m) = [] /\ mHard (apply_ignore sw m) = None /\ aE (apply_ignore sw m) = [])
+  /\ (In "faces"%string (sw_ignore sw) -> mF (apply_ignore sw m) = [] /\ aF (apply_ignore sw m) = [] /\ aFC (apply_ignore sw m) = [])
+  /\ (In "cells"%string (sw_ignore sw) -> mC (apply_ignore sw m) = [] /\ aC (apply_ignore sw m) = [] /\ aCC (apply_ignore sw m) = []
+                                         /\ aCF (apply_ignore sw m) = [])
+  /\ mV (apply_ignore sw m) = mV m /\ aV (apply_ignore sw m) = aV m
+  /\ (sw_ignore sw = [] -> apply_ignore sw m = m).
+Proof. exact ignore_elements_stmt. Qed.
+Print Assumptions C04_ignore_elements.
+
+(* ---- REFUTED for the faithful model (known findings, each replayed on the implementation on every run) *)
 (* OBJ: -k is the k-th vertex from the end; mouette reads f -3 -2 -1 as the face (-4, -3, -2) *)
 Theorem C04_obj_relative_indices_refuted :
   exists r, parse_fmt Fobj ex_obj_relative = Some r /\ rF r = [[-4; -3; -2]] /\ rF r <> [[0; 1; 2]].
@@ -168,3 +199,15 @@ Theorem C04_medit_dimension2_refuted :
   exists r, parse_fmt Fmedit ex_medit_dim2 = Some r /\ rV r = [[0; 0; 4619567317775286272]].
 Proof. exact medit_dimension2_refuted. Qed.
 Print Assumptions C04_medit_dimension2_refuted.
+(* geogram_ascii: a user attribute named like one the format gives a meaning to ("point" on the vertices) is read back as
+   geometry: 4 vertices instead of 2, no attribute *)
+Theorem C04_geogram_reserved_name_refuted :
+  exists r, parse_fmt Fgeo (map (fun t => [t]) (zprint_geo ex_point_mesh)) = Some r
+            /\ length (rV r) = 4%nat /\ rAV r = [] /\ oraw_eqb (Some r) (vocab_fmt Fgeo default_sw ex_point_mesh) = false.
+Proof. exact geogram_reserved_name_refuted. Qed.
+Print Assumptions C04_geogram_reserved_name_refuted.
+(* STL: a quad is outside the format's vocabulary yet is not left out: it is written as two triangles *)
+Theorem C04_stl_quads_refuted :
+  exists L S, zprint_stl ex_quad_smesh = Some L /\ @ref_parse_stl Z L = Some S /\ length S = 2%nat /\ Forall (fun t => length t = 3%nat) S.
+Proof. exact stl_quad_refuted. Qed.
+Print Assumptions C04_stl_quads_refuted.
